@@ -251,6 +251,17 @@ func runProgram(p progIn) (res progOut) {
 		L.Call(n-1, lua.MultRet)
 		return L.GetTop() - base
 	}))
+	L.SetGlobal("gerr", L.NewFunction(func(L *lua.LState) int {
+		L.RaiseError("%s", L.CheckString(1)) // a host function failing the ordinary way
+		return 0
+	}))
+	L.SetGlobal("gpanic", L.NewFunction(func(L *lua.LState) int {
+		panic(L.CheckString(1)) // a Go panic inside a host function
+	}))
+	L.SetGlobal("snap", L.NewFunction(func(L *lua.LState) int {
+		res.Snaps = append(res.Snaps, snapRecord(L, L.OptInt(1, 0), "lua"))
+		return 0
+	}))
 	registerHostFunctions(L, &res, tk, ctx)
 	defer func() {
 		res.Polls = ctx.polls
@@ -265,8 +276,14 @@ func runProgram(p progIn) (res progOut) {
 		return
 	}
 	base := L.GetTop()
+	if p.Snap {
+		res.Snaps = append(res.Snaps, snapRecord(L, -1, "go-before"))
+	}
 	L.Push(fn)
 	err = L.PCall(0, lua.MultRet, nil)
+	if p.Snap {
+		res.Snaps = append(res.Snaps, snapRecord(L, -1, "go-after"))
+	}
 	if err != nil {
 		if ctx.fired && ctx.reason != nil && ctx.reason.Error() == "verif-budget" {
 			res.Outcome = []interface{}{"budget"}
@@ -294,6 +311,30 @@ func runProgram(p progIn) (res progOut) {
 	}
 	res.Outcome = []interface{}{"ok", tk.toks(vs)}
 	return
+}
+
+// snapRecord copies the control skeleton of L (accessor built with -tags verif).
+func snapRecord(L *lua.LState, tag int, where string) map[string]interface{} {
+	s := L.VerifSnapshot()
+	frames := []interface{}{}
+	for _, f := range s.Frames {
+		frames = append(frames, []int{f.Base, f.LocalBase, f.ReturnBase, f.NArgs, f.NRet, boolInt(f.IsG), f.TailCall})
+	}
+	open := []int{}
+	for _, u := range s.Open {
+		if !u.Closed {
+			open = append(open, u.Index)
+		}
+	}
+	return map[string]interface{}{"tag": tag, "at": where, "sp": s.Sp, "top": s.Top, "frames": frames, "open": open,
+		"panicdflt": s.PanicIsDflt, "herr": s.HasErrorFunc, "dead": s.Dead, "cur": s.IsCurrent, "parent": s.HasParent}
+}
+
+func boolInt(b bool) int {
+	if b {
+		return 1
+	}
+	return 0
 }
 
 // registerHostFunctions is extended by other drivers (snapshots, host faults).
